@@ -136,6 +136,14 @@ class C12(Prop):
         n = 40000 if tier == "thorough" else 6000
         yield "random-well-formed", [case(";".join(wf_codes(rng))) for _ in range(n)]
         yield "malformed", [case(malformed(rng)) for _ in range(n)]
+        # very long lists (hundreds of fields): late codes, late resets and late malformed fields count
+        lines = []
+        for i in range(40 if tier == "thorough" else 12):
+            fields = wf_codes(rng, maxlen=rng.choice([250, 300, 600]))
+            lines.append(case(";".join(fields)))
+            lines.append(case(";".join(fields + ["0", "1"])))
+            lines.append(case(";".join(fields + [rng.choice(["", "x", "256", "-1"])])))
+        yield "very-long-lists", lines
 
     def nontrivial(self, line, impl):
         return impl.startswith("fg=") and impl != "fg=none bg=none ul=none eff=0"
